@@ -519,6 +519,7 @@ func (fv *FV) contractMentions(counter string) bool {
 	}
 	scan(c.Requires)
 	scan(c.Ensures)
+	scan(c.EnsuresTrusted)
 	scan(c.EnsuresLocal)
 	scan(c.Modifies)
 	for _, pc := range c.PreCalls {
